@@ -79,6 +79,9 @@ pub struct Profile {
     pub max_encs: usize,
     /// all-classic / all-hybrid / mixed choice is random when true, else mostly classic (speed)
     pub random_hints: bool,
+    /// build the initial structure through a history of its own (extra attributes deleted or
+    /// renamed before the first update): hierarchies whose order results from deletions
+    pub edited_initial_structure: bool,
 }
 
 #[derive(Clone, Debug)]
@@ -107,7 +110,7 @@ pub enum Op {
     Recaps { enc: usize },
     RoundTrip { what: RT, idx: usize },
     DeriveMpk,
-    Forged { usk: usize, keep: bool, bit: usize },
+    Forged { usk: usize, keep: bool, bit: usize, kind: u8 },
     Matrix,
 }
 
@@ -133,7 +136,16 @@ impl Op {
             Op::Recaps { enc } => format!("recaps(enc{enc})"),
             Op::RoundTrip { what, idx } => format!("roundtrip({what:?}{idx})"),
             Op::DeriveMpk => "msk.mpk()".into(),
-            Op::Forged { usk, keep, bit } => format!("refresh(forged usk{usk} bit{bit},keep={keep})"),
+            Op::Forged { usk, keep, bit, kind } => format!(
+                "refresh(forged usk{usk} {},keep={keep})",
+                match kind {
+                    0 => format!("bit{bit} flipped"),
+                    1 => "signature stripped".to_string(),
+                    2 => "signature stripped and a chain removed".to_string(),
+                    3 => "a chain duplicated".to_string(),
+                    _ => "rights of another key appended, signature stripped".to_string(),
+                }
+            ),
             Op::Matrix => "decaps-matrix".into(),
         }
     }
@@ -1412,16 +1424,48 @@ impl World {
                 Out::Ok(m) => self.push_mpk(m, "msk.mpk()"),
                 o => self.finding("C09", "mpk-derivation-fails".into(), o.describe()),
             },
-            Op::Forged { usk, keep, bit } => {
+            Op::Forged { usk, keep, bit, kind } => {
                 let i = *usk;
                 if i >= self.usks.len() {
                     return;
                 }
                 let Some(mut b) = ser(&self.usks[i].usk).ok() else { return };
                 let n = b.len();
-                // flip one bit in the last 32+64 bytes (signature or last secret): both are MAC'd
-                let pos = n - 1 - (bit / 8) % 96.min(n);
-                b[pos] ^= 1 << (bit % 8);
+                match kind {
+                    0 => {
+                        // flip one bit in the last 32+64 bytes (signature or last secret): both are MAC'd
+                        let pos = n - 1 - (bit / 8) % 96.min(n);
+                        b[pos] ^= 1 << (bit % 8);
+                    }
+                    _ => {
+                        let Ok(mut w) = WUsk::parse(&b) else { return };
+                        match kind {
+                            1 => w.sig = None,
+                            2 => {
+                                w.sig = None;
+                                if w.chains.len() > 1 {
+                                    w.chains.remove(bit % w.chains.len());
+                                }
+                            }
+                            3 => {
+                                let c = w.chains[bit % w.chains.len()].clone();
+                                w.chains.push(c);
+                            }
+                            _ => {
+                                w.sig = None;
+                                let j = (i + 1) % self.usks.len();
+                                if let Some(Ok(o)) = ser(&self.usks[j].usk).ok().map(|b| WUsk::parse(&b)) {
+                                    for c in o.chains {
+                                        if !w.chains.iter().any(|x| x.0 == c.0) {
+                                            w.chains.push(c);
+                                        }
+                                    }
+                                }
+                            }
+                        }
+                        b = w.write();
+                    }
+                }
                 let Out::Ok(mut forged) = de::<UserSecretKey>(&b) else {
                     self.stats.bump("forged_key_unparseable");
                     return;
@@ -1442,10 +1486,10 @@ impl World {
                         }
                     }
                     _ => {
+                        // "a forged user key" is one of the documented error situations (C09)
                         if let Some(f) = self.stats.findings.last_mut() {
                             if f.signature.starts_with("C09:unexpected-success") {
-                                f.prop = "C08".into();
-                                f.signature = "C08:bitflipped-key-accepted".into();
+                                f.signature = format!("C09:forged-key-accepted:kind{kind}");
                             }
                         }
                     }
@@ -1738,6 +1782,29 @@ impl Gen {
                 placed.push(an.to_string());
                 ops.push(Op::AddAttr { dim: dn.to_string(), name: an.to_string(), hybrid, after });
             }
+            if p.edited_initial_structure && self.rng.chance(1, 2) {
+                // extra attributes, then deletions / renames: the final order of a hierarchy is
+                // then the result of removals in the middle, at the bottom and at the top
+                let extras = ["Z1", "Z2", "Z3"];
+                let k = self.rng.range(1, 3);
+                for e in extras.iter().take(k) {
+                    let after = if ordered && !placed.is_empty() && self.rng.chance(2, 3) { Some(self.rng.pick(&placed).clone()) } else { None };
+                    placed.push(e.to_string());
+                    ops.push(Op::AddAttr { dim: dn.to_string(), name: e.to_string(), hybrid: self.rng.chance(1, 3), after });
+                }
+                for e in extras.iter().take(k) {
+                    if self.rng.chance(3, 4) {
+                        ops.push(Op::DelAttr { dim: dn.to_string(), name: e.to_string() });
+                    } else {
+                        ops.push(Op::Rename { dim: dn.to_string(), old: e.to_string(), new: format!("{e}r") });
+                    }
+                }
+                if placed.len() > k + 1 && self.rng.chance(1, 3) {
+                    // also delete one of the regular attributes
+                    let victim = placed[self.rng.below(placed.len() - k)].clone();
+                    ops.push(Op::DelAttr { dim: dn.to_string(), name: victim });
+                }
+            }
         }
         ops.push(Op::Update);
         ops
@@ -1905,7 +1972,7 @@ impl Gen {
                     if w.usks.is_empty() {
                         continue;
                     }
-                    return Op::Forged { usk: self.rng.below(w.usks.len()), keep: self.rng.chance(1, 2), bit: self.rng.below(96 * 8) };
+                    return Op::Forged { usk: self.rng.below(w.usks.len()), keep: self.rng.chance(1, 2), bit: self.rng.below(96 * 8), kind: self.rng.below(5) as u8 };
                 }
                 _ => return Op::Matrix,
             }
